@@ -22,7 +22,9 @@ CONSTANTS Own, Router, Targets, NilMAC,      \* MAC identifiers (Targets: set of
           RouterIP, HostIP, LanIPs,          \* IPv4 inside the home LAN
           Zero, LL, Ext, Bcast4,             \* 0.0.0.0, a 169.254/16 address, an off-LAN address, 255.255.255.255
           V6, NoIP,                          \* an IPv6 address, the invalid (zero value) address
-          ByMac                              \* TRUE: loop membership looked up by MAC (the proposed fix)
+          ByMac,                             \* TRUE: loop membership looked up by MAC (the code since 0f0beaf)
+          RacyStart                          \* TRUE: deviation variant -- StartHunt tests membership under a read lock and inserts
+                                             \*   under a second, separate lock (two overlapping calls both insert and spawn)
 
 IP4     == {RouterIP, HostIP, Zero, LL, Ext, Bcast4} \cup LanIPs
 InLan(ip) == ip \in {RouterIP, HostIP} \cup LanIPs
@@ -33,6 +35,8 @@ VARIABLES hunt,      \* Targets -> IP4 \cup {NoIP}            Handler.huntList (
           loops,     \* sequence of [mac, ip, pc, tgt]         spoofLoop goroutines, index = loop id
           closed,    \* BOOLEAN                                Handler.closed
           offer,     \* Targets -> IP4 \cup {V6, NoIP}         MACEntry.IP4Offer
+          pend,      \* Targets -> sequence of addresses: StartHunt calls between their membership test and their insert
+                     \*   (always empty unless RacyStart)
           hostOf,    \* LanIPs -> Targets \cup {NilMAC}         Session.HostTable restricted to client addresses: the
                      \*   MAC entry (and its offer) is deleted with its last host (hosttable.go:124-163)
           out,       \* sequence of ARP frames emitted by the last step
@@ -44,9 +48,9 @@ VARIABLES hunt,      \* Targets -> IP4 \cup {NoIP}            Handler.huntList (
           poisoned,  \* property level: Targets -> BOOLEAN, last loop frame received was a forged one
           pre        \* property level: facts about the state before the last step
 
-mech == <<hunt, loops, closed, offer, hostOf, out, ev>>
+mech == <<hunt, loops, closed, offer, hostOf, pend, out, ev>>
 prop == <<refHunt, refClosed, refOffer, rl, poisoned, pre>>
-vars == <<hunt, loops, closed, offer, hostOf, out, ev, refHunt, refClosed, refOffer, rl, poisoned, pre>>
+vars == <<hunt, loops, closed, offer, hostOf, pend, out, ev, refHunt, refClosed, refOffer, rl, poisoned, pre>>
 
 Frame(op, ed, sm, si, tm, ti) == [op |-> op, ed |-> ed, sm |-> sm, si |-> si, tm |-> tm, ti |-> ti]
 
@@ -68,7 +72,7 @@ Found(l) == IF ByMac THEN (IF Hunted(loops[l].mac) THEN {loops[l].mac} ELSE {})
             ELSE FoundByIP(loops[l].ip)
 
 StartHuntM(m, ip) ==
-  /\ UNCHANGED <<closed, offer, hostOf>> /\ out' = <<>>
+  /\ UNCHANGED <<closed, offer, hostOf, pend>> /\ out' = <<>>
   /\ IF m = NilMAC \/ ip \notin IP4
      THEN /\ UNCHANGED <<hunt, loops>>
           /\ ev' = [kind |-> "start", mac |-> m, ip |-> ip, err |-> TRUE, spawned |-> 0]
@@ -79,33 +83,61 @@ StartHuntM(m, ip) ==
           /\ loops' = Append(loops, [mac |-> m, ip |-> ip, pc |-> "check", tgt |-> m])
           /\ ev' = [kind |-> "start", mac |-> m, ip |-> ip, err |-> FALSE, spawned |-> 1]
 
+\* n overlapping StartHunt(m, ip) calls observed together (all have returned): the mutex serialises them, so the
+\* first effective one inserts and spawns, the others find the entry
+ConcStartM(m, ip, n) ==
+  /\ UNCHANGED <<closed, offer, hostOf, pend>> /\ out' = <<>>
+  /\ IF m = NilMAC \/ ip \notin IP4
+     THEN /\ UNCHANGED <<hunt, loops>>
+          /\ ev' = [kind |-> "cstart", mac |-> m, ip |-> ip, n |-> n, errs |-> n, spawned |-> 0]
+     ELSE IF Hunted(m)
+     THEN /\ UNCHANGED <<hunt, loops>>
+          /\ ev' = [kind |-> "cstart", mac |-> m, ip |-> ip, n |-> n, errs |-> 0, spawned |-> 0]
+     ELSE /\ hunt' = [hunt EXCEPT ![m] = ip]
+          /\ loops' = Append(loops, [mac |-> m, ip |-> ip, pc |-> "check", tgt |-> m])
+          /\ ev' = [kind |-> "cstart", mac |-> m, ip |-> ip, n |-> n, errs |-> 0, spawned |-> 1]
+
+\* deviation variant RacyStart: the membership test and the insert are two critical sections
+StartCheckM(m, ip) ==
+  /\ RacyStart /\ m # NilMAC /\ ip \in IP4 /\ ~Hunted(m) /\ Len(pend[m]) < 2
+  /\ UNCHANGED <<hunt, loops, closed, offer, hostOf>> /\ out' = <<>>
+  /\ pend' = [pend EXCEPT ![m] = Append(@, ip)]
+  /\ ev' = [kind |-> "scheck", mac |-> m, ip |-> ip]
+StartInsertM(m) ==
+  /\ RacyStart /\ pend[m] # <<>>
+  /\ UNCHANGED <<closed, offer, hostOf>> /\ out' = <<>>
+  /\ pend' = [pend EXCEPT ![m] = Tail(@)]
+  /\ hunt' = [hunt EXCEPT ![m] = Head(pend[m])]
+  /\ loops' = Append(loops, [mac |-> m, ip |-> Head(pend[m]), pc |-> "check", tgt |-> m])
+  /\ ev' = [kind |-> "sinsert", mac |-> m, ip |-> Head(pend[m]), spawned |-> 1]
+
 StopHuntM(m) ==
-  /\ UNCHANGED <<loops, closed, offer, hostOf>> /\ out' = <<>>
+  /\ UNCHANGED <<loops, closed, offer, hostOf, pend>> /\ out' = <<>>
   /\ hunt' = IF m \in Targets THEN [hunt EXCEPT ![m] = NoIP] ELSE hunt
   /\ ev' = [kind |-> "stop", mac |-> m]
 
 CloseM ==
-  /\ UNCHANGED <<hunt, loops, offer, hostOf>> /\ out' = <<>>
+  /\ UNCHANGED <<hunt, loops, offer, hostOf, pend>> /\ out' = <<>>
   /\ closed' = TRUE
   /\ ev' = [kind |-> "close", stuck |-> {}]
 
 \* Close followed by the wake-up of every waiting loop (closeChan is closed: spoof.go:119); `stuck`
 \* is the set of waiting loops observed NOT to wake up (always empty in the mechanism)
 CloseAndWakeM ==
-  /\ UNCHANGED <<hunt, offer, hostOf>> /\ out' = <<>>
+  /\ UNCHANGED <<hunt, offer, hostOf, pend>> /\ out' = <<>>
   /\ closed' = TRUE
   /\ loops' = [i \in 1..Len(loops) |-> IF loops[i].pc = "wait" THEN [loops[i] EXCEPT !.pc = "check"] ELSE loops[i]]
   /\ ev' = [kind |-> "close", stuck |-> {}]
 
 OfferM(m, ip) ==
-  /\ UNCHANGED <<hunt, loops, closed, hostOf>> /\ out' = <<>>
+  /\ UNCHANGED <<hunt, loops, closed, hostOf, pend>> /\ out' = <<>>
   /\ offer' = [offer EXCEPT ![m] = ip]
   /\ ev' = [kind |-> "offer", mac |-> m, ip |-> ip]
 
 \* spoof.go:82-84: membership check under arpMutex
 LoopCheckFromM(l, t, pcs) ==
   /\ loops[l].pc \in pcs
-  /\ UNCHANGED <<hunt, closed, offer, hostOf>> /\ out' = <<>>
+  /\ UNCHANGED <<hunt, closed, offer, hostOf, pend>> /\ out' = <<>>
   /\ IF Found(l) = {}
      THEN /\ t = NilMAC
           /\ loops' = [loops EXCEPT ![l].pc = "correct"]
@@ -119,7 +151,7 @@ LoopCheckM(l, t) == LoopCheckFromM(l, t, {"check"})
 \* spoof.go:86-116: `closed` is read after the mutex is released
 LoopActM(l) ==
   /\ loops[l].pc \in {"send", "correct"}
-  /\ UNCHANGED <<hunt, closed, offer, hostOf>>
+  /\ UNCHANGED <<hunt, closed, offer, hostOf, pend>>
   /\ IF closed
      THEN /\ loops' = [loops EXCEPT ![l].pc = "done"] /\ out' = <<>>
           /\ ev' = [kind |-> "act", l |-> l, done |-> TRUE]
@@ -132,7 +164,7 @@ LoopActM(l) ==
 \* the 6 s ticker fires / closeChan is closed
 TickM(l) ==
   /\ loops[l].pc = "wait"
-  /\ UNCHANGED <<hunt, closed, offer, hostOf>> /\ out' = <<>>
+  /\ UNCHANGED <<hunt, closed, offer, hostOf, pend>> /\ out' = <<>>
   /\ loops' = [loops EXCEPT ![l].pc = "check"]
   /\ ev' = [kind |-> "tick", l |-> l]
 WakeOnCloseM(l) == closed /\ TickM(l)
@@ -161,11 +193,13 @@ RecvOut(op, sm, si, ti, off) ==
   ELSE IF c = "probe" /\ sm \in Targets /\ off[sm] \in IP4 /\ off[sm] # ti /\ InLan(ti) THEN <<Reject(sm, ti)>>
   ELSE <<>>
 
-RecvM(op, sm, si, ti) ==
-  /\ UNCHANGED <<hunt, loops, closed>>
+\* es: the Ethernet source of the frame. The handler keys everything on the ARP sender hardware address sm
+\* (arp.go:325,331); a relay that forwards another station's request has es # sm.
+RecvM(op, es, sm, si, ti) ==
+  /\ UNCHANGED <<hunt, loops, closed, pend>>
   /\ hostOf' = ParseHosts(sm, si) /\ offer' = ParseOffer(sm, si)
   /\ out' = RecvOut(op, sm, si, ti, offer')
-  /\ ev' = [kind |-> "recv", op |-> op, sm |-> sm, si |-> si, ti |-> ti]
+  /\ ev' = [kind |-> "recv", op |-> op, es |-> es, sm |-> sm, si |-> si, ti |-> ti]
 
 -----------------------------------------------------------------------------
 (* property level: reference variables, updated from the call log and the observable events only *)
@@ -177,12 +211,14 @@ StartHuntR(m, ip, n) ==          \* n: number of loop instances that announce th
   /\ pre' = [NoPre EXCEPT !.hunted = m \in refHunt, !.valid = valid, !.mac = m]
   /\ refHunt' = IF valid THEN refHunt \cup {m} ELSE refHunt
   /\ UNCHANGED <<refClosed, refOffer, poisoned>>
-  /\ rl' = rl \o [i \in 1..n |-> [mac |-> m, alive |-> TRUE, snap |-> {}, fresh |-> FALSE]]
+  /\ rl' = rl \o [i \in 1..n |-> [mac |-> m, alive |-> TRUE, snap |-> {}, fresh |-> FALSE, cur |-> TRUE]]
 
 StopHuntR(m) ==
   /\ pre' = [NoPre EXCEPT !.hunted = m \in refHunt, !.mac = m]
   /\ refHunt' = refHunt \ {m}
-  /\ UNCHANGED <<refClosed, refOffer, rl, poisoned>>
+  \* the loops spawned for the hunt that ends here no longer count as loops of the current hunt of m
+  /\ rl' = [l \in 1..Len(rl) |-> IF rl[l].mac = m THEN [rl[l] EXCEPT !.cur = FALSE] ELSE rl[l]]
+  /\ UNCHANGED <<refClosed, refOffer, poisoned>>
 
 CloseR == /\ refClosed' = TRUE /\ pre' = NoPre /\ UNCHANGED <<refHunt, refOffer, rl, poisoned>>
 
@@ -224,6 +260,9 @@ RecvR == pre' = NoPre /\ poisoned' = Poison(poisoned, out') /\ UNCHANGED <<refHu
 (* actions *)
 
 StartHunt(m, ip) == StartHuntM(m, ip) /\ StartHuntR(m, ip, ev'.spawned)
+ConcStart(m, ip, n) == ConcStartM(m, ip, n) /\ StartHuntR(m, ip, ev'.spawned)
+StartCheck(m, ip) == StartCheckM(m, ip) /\ IdleR
+StartInsert(m)   == StartInsertM(m) /\ StartHuntR(m, Head(pend[m]), 1)
 StopHunt(m)      == StopHuntM(m) /\ StopHuntR(m)
 Close            == CloseM /\ CloseR
 Offer(m, ip)     == OfferM(m, ip) /\ OfferR(m, ip)
@@ -231,11 +270,11 @@ LoopCheck(l, t)  == LoopCheckM(l, t) /\ LoopCheckR(l)
 LoopAct(l)       == LoopActM(l) /\ LoopActR(l)
 Tick(l)          == TickM(l) /\ IdleR
 WakeOnClose(l)   == WakeOnCloseM(l) /\ IdleR
-Recv(op, sm, si, ti) == RecvM(op, sm, si, ti) /\ RecvR
+Recv(op, es, sm, si, ti) == RecvM(op, es, sm, si, ti) /\ RecvR
 
 Init ==
   /\ hunt = [m \in Targets |-> NoIP] /\ loops = <<>> /\ closed = FALSE
-  /\ offer = [m \in Targets |-> NoIP] /\ hostOf = [ip \in LanIPs |-> NilMAC] /\ out = <<>> /\ ev = [kind |-> "init"]
+  /\ offer = [m \in Targets |-> NoIP] /\ hostOf = [ip \in LanIPs |-> NilMAC] /\ pend = [m \in Targets |-> <<>>] /\ out = <<>> /\ ev = [kind |-> "init"]
   /\ refHunt = {} /\ refClosed = FALSE /\ refOffer = [m \in Targets |-> NoIP]
   /\ rl = <<>> /\ poisoned = [m \in Targets |-> FALSE] /\ pre = NoPre
 
@@ -254,8 +293,9 @@ OfKind(k) == {f \in Frames : FrameKind(f) = k}
 P_ForgedOnlyToHunted ==
   \A f \in OfKind("forged") :
      \/ ev.kind = "act" /\ f.ed \in pre.snap /\ Cardinality(OfKind("forged")) = 1 /\ Len(out) = 1
+     \* the forged reply is ADDRESSED to a hunted MAC, which is the station that asked (the ARP sender)
      \/ /\ ev.kind = "recv" /\ RecvClass(ev.op, ev.si, ev.ti) = "request" /\ ev.ti = RouterIP
-        /\ ev.sm \in refHunt /\ f.ed = ev.sm /\ f.op = 2 /\ Len(out) = 1
+        /\ f.ed \in refHunt /\ f.ed = ev.sm /\ f.op = 2 /\ Len(out) = 1
 
 \* "a probe-reject reply is sent only when the probing MAC holds a different outstanding DHCP
 \*  offer and the probed address lies in the home LAN"
@@ -283,11 +323,17 @@ P_UndoWithinOneCycle == P_UndoContinue /\ P_UndoRestore /\ P_UndoQuiet
 
 \* "StartHunt is idempotent per MAC" (and rejects a nil MAC / non-IPv4 target): a second StartHunt
 \* neither changes the list nor starts another loop
+\* Also for overlapping calls: however many StartHunt calls for one MAC run concurrently, one hunt has one loop.
 P_Idempotent ==
-  ev.kind = "start" =>
-     /\ ev.err = ~pre.valid
-     /\ (~pre.valid => ev.spawned = 0)
-     /\ (~refClosed => ev.spawned = (IF pre.valid /\ ~pre.hunted THEN 1 ELSE 0))    \* (the statement is silent about StartHunt after Close)
+  /\ ev.kind = "start" =>
+        /\ ev.err = ~pre.valid
+        /\ (~pre.valid => ev.spawned = 0)
+        /\ (~refClosed => ev.spawned = (IF pre.valid /\ ~pre.hunted THEN 1 ELSE 0))    \* (the statement is silent about StartHunt after Close)
+  /\ ev.kind = "cstart" =>
+        /\ ev.errs = (IF pre.valid THEN 0 ELSE ev.n)
+        /\ (~pre.valid => ev.spawned = 0)
+        /\ (~refClosed => ev.spawned = (IF pre.valid /\ ~pre.hunted THEN 1 ELSE 0))
+  /\ ~refClosed => \A m \in Targets : Cardinality({l \in 1..Len(rl) : rl[l].mac = m /\ rl[l].cur}) <= 1
 
 \* "Close stops all loops": a loop that continues after a check saw the handler open when it acted
 \* (the wake-up half is the `stuck` observation of the trace specification / the fairness config)
